@@ -16,6 +16,22 @@ theorem under_limits_invariant (c : ACfg) (hc : Positive c) (ms : List Msg) :
   | nil => intro s h; exact h
   | cons m ms ih => intro s h; exact ih _ (step_inv_aux c hc s m h)
 
+/-- Witness config for the non-vacuity examples: all limits positive (10 rows, 1000 bytes, 2 rows and 1000 bytes
+    per partition, 100 time units). -/
+private def nv_cfg : ACfg := ⟨10, 1000, 2, 1000, 100⟩
+
+/-- Witness state: the actor after a rejected batch, a two-row batch for two partitions at time 7, and a quiet tick. -/
+private def nv_buffered : ASt :=
+  (runMsgs nv_cfg {} [.bad 9, .batch 1 [⟨1, "a", 10⟩, ⟨2, "b", 10⟩] 7, .tick 50]).1
+
+/-- non-vacuity: the premise of `under_limits_invariant` holds for that config, and for the message sequence above
+    the invariant speaks about a non-empty buffer (two partitions, two rows, 20 bytes, start time 7) -/
+example : Positive nv_cfg ∧
+    nv_buffered = { parts := [⟨"a", [1], 10⟩, ⟨"b", [2], 10⟩], waiters := [1], rows := 2, bytes := 20, t0 := some 7 } ∧
+    (UnderLimits nv_cfg nv_buffered ∧ Consistent nv_buffered) :=
+  ⟨⟨by decide, by decide, by decide, by decide⟩, by decide,
+   under_limits_invariant nv_cfg ⟨by decide, by decide, by decide, by decide⟩ [.bad 9, .batch 1 [⟨1, "a", 10⟩, ⟨2, "b", 10⟩] 7, .tick 50]⟩
+
 /-- **Immediately**: if processing a batch makes buffered rows, buffered bytes, or a touched
     partition's rows or bytes reach its limit, the step hands *all* buffered data (and every waiter)
     to the flush worker and leaves the buffer empty. -/
@@ -25,16 +41,35 @@ theorem C10_immediate (c : ACfg) (s : ASt) (w : Nat) (rows : List RowIn) (now : 
     (partIds (addRows rows s.parts)).Perm (partIds s.parts ++ rows.map (·.id)) :=
   ⟨immediate_aux c s w rows now hne h, addRows_ids_aux rows s.parts⟩
 
+/-- non-vacuity: the premises of `C10_immediate` hold for the buffered state above and a one-row batch that brings
+    partition "a" to its row-group limit (2); the step flushes both partitions and both waiters -/
+example : ([⟨3, "a", 10⟩] : List RowIn) ≠ [] ∧ reaches nv_cfg nv_buffered [⟨3, "a", 10⟩] = true ∧
+    step nv_cfg nv_buffered (.batch 2 [⟨3, "a", 10⟩] 60) = ({}, [.flush [⟨"a", [1, 3], 20⟩, ⟨"b", [2], 10⟩] [1, 2]]) :=
+  ⟨by decide, by decide, (C10_immediate nv_cfg nv_buffered 2 [⟨3, "a", 10⟩] 60 (by decide) (by decide)).1⟩
+
 /-- **By time**: with rows buffered since `t`, any tick at or after `t + MaxBufferedTime` flushes
     everything; with tick period τ the request is enqueued by `t + MaxBufferedTime + τ`. -/
 theorem C10_time (c : ACfg) (s : ASt) (now t : Nat) (hr : s.rows > 0) (ht : s.t0 = some t)
     (hn : now ≥ t + c.maxTime) : step c s (.tick now) = ({}, [.flush s.parts s.waiters]) :=
   time_aux c s now t hr ht hn
 
+/-- non-vacuity: the premises of `C10_time` hold for the buffered state above (rows buffered since 7) and a tick
+    at 107 = 7 + MaxBufferedTime; the tick flushes both partitions -/
+example : nv_buffered.rows > 0 ∧ nv_buffered.t0 = some 7 ∧ 107 ≥ 7 + nv_cfg.maxTime ∧
+    step nv_cfg nv_buffered (.tick 107) = ({}, [.flush [⟨"a", [1], 10⟩, ⟨"b", [2], 10⟩] [1]]) :=
+  ⟨by decide, by decide, by decide, C10_time nv_cfg nv_buffered 107 7 (by decide) (by decide) (by decide)⟩
+
 /-- Rows are buffered with a start time, so `C10_time` always applies to a non-empty buffer. -/
 theorem buffered_has_start (c : ACfg) (hc : Positive c) (ms : List Msg) :
     (runMsgs c {} ms).1.rows > 0 → (runMsgs c {} ms).1.t0.isSome = true :=
   (under_limits_invariant c hc ms).2.2.2.1
+
+/-- non-vacuity: both premises of `buffered_has_start` (positive config, rows buffered) hold for the message
+    sequence behind `nv_buffered`, and the start time it yields is the batch's arrival time -/
+example : Positive nv_cfg ∧
+    (runMsgs nv_cfg {} [.bad 9, .batch 1 [⟨1, "a", 10⟩, ⟨2, "b", 10⟩] 7, .tick 50]).1.rows > 0 ∧
+    (runMsgs nv_cfg {} [.bad 9, .batch 1 [⟨1, "a", 10⟩, ⟨2, "b", 10⟩] 7, .tick 50]).1.t0 = some 7 :=
+  ⟨⟨by decide, by decide, by decide, by decide⟩, by decide, by decide⟩
 
 /-- No row is lost or duplicated on the way to the flush worker. -/
 theorem conservation (c : ACfg) (ms : List Msg) :
